@@ -212,7 +212,10 @@ def to_tk(circuit):
             tk_circ.__getattribute__(box.name[:2])(2 * box.phase, *i_qubits)
         elif isinstance(box, CRz):
             tk_circ.__getattribute__(box.name[:3])(2 * box.phase, *i_qubits)
-        elif hasattr(tk_circ, box.name):
+        elif box.is_dagger and hasattr(tk_circ, box.name + 'dg'):
+            tk_circ.__getattribute__(box.name + 'dg')(*i_qubits)
+        elif hasattr(tk_circ, box.name) and (
+                not box.is_dagger or (box.array == box.dagger().array).all()):
             tk_circ.__getattribute__(box.name)(*i_qubits)
         else:
             raise NotImplementedError
